@@ -466,25 +466,26 @@ def check_readers(c, repo):
     f = repo.func('spawnbase:SpawnBase.readlines')
     g = f.cfg
     rl = cfg_nodes_with_call(f, lambda k: callee_last(k) == 'readline')
-    c.need(len(rl) == 1 and isinstance(rl[0][0].ast, ast.Assign), 'readlines: line = self.readline() not found')
-    ln, lk = rl[0]
-    var = ln.ast.targets[0].id
+    c.need(rl and all(isinstance(n.ast, ast.Assign) and isinstance(n.ast.targets[0], ast.Name) for n, k in rl), 'readlines: line = self.readline() not found')
+    vars_ = set(n.ast.targets[0].id for n, k in rl)
+    c.need(len(vars_) == 1, 'readlines: the lines are read into more than one variable')
+    var = list(vars_)[0]
+    RL = set(n for n, k in rl)
     apps = [n for n, k in cfg_nodes_with_call(f, lambda k: callee_last(k) == 'append' and k.args and is_name(k.args[0], var))]
-    c.need(len(apps) == 1, 'readlines: append(line) not found')
-    ok, p = g.must_pass(ln, {ln}, set(apps), skip_labels=('exc',))
-    c.check(ok, f, apps[0].ast, 'every line read is appended before the next readline()',
-            witness='path: ' + g.describe_path(p) if p else None, tag='readlines-append')
-    ok2, p2 = g.must_pass(apps[0], {apps[0]}, {ln}, skip_labels=('exc',))
-    c.check(ok2, f, apps[0].ast, 'no line is appended twice', tag='readlines-once')
-    # the loop ends exactly when readline() returns an empty string (EOF): break on the falsy edge only
-    tl = [t for t in g.nodes if t.kind == 'test' and norm(t.ast) in ('not %s' % var, var, "%s == ''" % var, 'len(%s) == 0' % var)]
-    okb = False
-    if len(tl) == 1:
-        edge = 'false' if norm(tl[0].ast) == var else 'true'
-        nx = [s2 for s2, l2 in tl[0].succ if l2 == edge]
-        other = [s2 for s2, l2 in tl[0].succ if l2 != edge]
-        okb = len(nx) == 1 and nx[0].kind == 'stmt' and isinstance(nx[0].ast, ast.Break) and all(o in apps for o in other)
-    c.check(okb, f, tl[0].ast if tl else None, 'readlines stops exactly when a line is empty (EOF) and appends every other line', witness=norm(tl[0].ast) if tl else 'test missing', tag='readlines-stop')
+    c.need(apps, 'readlines: append(line) not found')
+    APP = set(apps)
+    rets_ = set(returns(f))
+    # stated on feasible paths, so `while True: ... if not line: break`, a primed `while line:` loop and `for line in iter(...)` forms agree
+    for ln in sorted(RL, key=lambda n: n.id):
+        p = g.path(ln, RL | rets_ | {g.exit}, avoid=APP, skip_labels=('exc',), include_start=False, assume=[(var, True, {var})])
+        c.check(p is None, f, ln.ast, 'every non-empty line read is appended before the next readline() / the return',
+                witness='path: ' + g.describe_path(p) if p else None, tag='readlines-append')
+        p3 = g.path(ln, APP | RL, skip_labels=('exc',), include_start=False, assume=[(var, False, {var})])
+        c.check(p3 is None, f, ln.ast, 'readlines stops exactly when a line is empty (EOF): the empty line is not appended and nothing more is read',
+                witness='path: ' + g.describe_path(p3) if p3 else None, tag='readlines-stop')
+    for an in apps:
+        ok2, p2 = g.must_pass(an, APP, RL, skip_labels=('exc',))
+        c.check(ok2, f, an.ast, 'no line is appended twice', tag='readlines-once')
     rr = [r for r in returns(f)]
     inits = [n for n in g.nodes if n.kind == 'stmt' and isinstance(n.ast, ast.Assign) and norm(n.ast.value) == '[]']
     okr = len(rr) == 1 and len(inits) == 1 and is_name(rr[0].ast.value, inits[0].ast.targets[0].id) and \
